@@ -17,7 +17,7 @@ from . import interpose, simpool, simsync
 interpose.install_global()  # before the code under test is imported anywhere (it may bind datetime/time names)
 from .clock import SimClock, EPOCH0
 from .resources import (FakeResponse, FetchLog, InjectedError, RequestsShim, Store, SIM_REMOTE_DIR,
-                        build_sim_resource, postprocess_bytes)
+                        build_sim_resource, postprocess_bytes, unpostprocess)
 from .sched import Director, HarnessAbort, Sched, SimCrash
 from .simfs import SimFS, SimUnsupported
 
@@ -64,9 +64,9 @@ def key_uri(k, with_directives=True):
         return base
     d = []
     if k.get("val"):
-        d.append("validate=v")
+        d.append("validate=" + k.get("vn", "v"))
     if k.get("pp"):
-        d.append("postprocess=pp")
+        d.append("postprocess=" + k.get("ppn", "pp"))
     if d:
         if k.get("rev"):
             d.reverse()  # the order of directives is free: "postprocess=pp;validate=v:..." is the same request
@@ -395,6 +395,7 @@ class World:
         self.validator_policy = {"mode": "accept"}
         self.validator_calls = []
         self.pp_calls = []
+        self.wrong_directive = None
         self.incarnation = 0
         self.violation = None
         self.harness = None
@@ -585,10 +586,7 @@ class World:
         node = self.fs.h_node(filepath)
         if node is None or node.kind != "f":
             return None
-        data = bytes(node.data)
-        pp = data.startswith(b"PP(") and data.endswith(b")")
-        if pp:
-            data = data[3:-1][::-1]
+        data, _ppname = unpostprocess(bytes(node.data))
         if not data.startswith(b"SIM1|"):
             return None
         try:
@@ -763,7 +761,30 @@ class World:
         r.raw = type(r.raw)(r, b"")
         return r
 
-    def _pp(self, filepath):
+    def _named(self, directive, name):
+        """a fresh function object for the directive function registered under `name` (a user who swaps an
+        implementation registers a new object; the semantics belong to the name)"""
+        if directive == "postprocess":
+            return lambda filepath: self._pp(filepath, name)
+        return lambda filepath: self._validate(filepath, name)
+
+    def _register_directives(self, setter):
+        """everything this user registers on a cache: the directive functions the uris of the run name, plus
+        (in runs with several names) one that no uri names"""
+        names = {("postprocess", "pp"), ("validate", "v")}
+        for kd in self.keys:
+            if kd.get("pp"):
+                names.add(("postprocess", kd.get("ppn", "pp")))
+            names.add(("validate", kd.get("vn", "v")))  # (a single request may add the directive to any uri)
+        if len(names) > 2:
+            names |= {("postprocess", "unused"), ("validate", "unused")}
+        order = sorted(names)
+        if self.knobs.get("dir_order_rev"):
+            order.reverse()
+        for d, n in order:
+            setter(d, n, self._named(d, n))
+
+    def _pp(self, filepath, name="pp"):
         key = self._attribute_key(filepath, None)
         if key is not None:
             self.actor_key[self.sched.owner()] = key
@@ -779,7 +800,7 @@ class World:
             raise _RemoteResourceUriNotFound("injected: side-car object needed by the post-processor not found")
         with open(filepath, "rb") as f:
             data = f.read()
-        out = postprocess_bytes(data)
+        out = postprocess_bytes(data, name)
         half = len(out) // 2
         with open(filepath, "wb") as f:
             f.write(out[:half])
@@ -798,8 +819,11 @@ class World:
             raise _RemoteResourceUriNotFound("injected: side-car object needed by the post-processor not found (after rewriting)")
         return None
 
-    def _validate(self, filepath):
+    def _validate(self, filepath, name="v"):
         key = self._attribute_key(filepath, None)
+        if key is not None and self.keys[key].get("vn", "v") != name and self.wrong_directive is None:
+            # the uri names one validator and the cache called another registered one
+            self.wrong_directive = (self.director.op, key, name)
         fault = self.director.take_fault(VAL_FAULTS, key, None)
         kind = fault["kind"] if fault else None
         verdict = True
@@ -823,7 +847,7 @@ class World:
             # self-describing content says which resource and version the file holds
             with open(filepath, "rb") as f:
                 data = f.read()
-            raw = data[3:-1][::-1] if data.startswith(b"PP(") and data.endswith(b")") else data
+            raw = unpostprocess(data)[0]
             if raw.startswith(b"SIM1|"):
                 try:
                     cur = self.store.current(raw.split(b"|", 2)[1].decode())
@@ -849,13 +873,13 @@ class World:
             data = self.store.versions[kd["res"]][version]
         if data is None:
             return None
-        return postprocess_bytes(data) if kd.get("pp") else data
+        return postprocess_bytes(data, kd.get("ppn", "pp")) if kd.get("pp") else data
 
     def acceptable_bytes(self, key):
         kd = self.keys[key]
         out = []
         for data in self.store.all_versions(kd["res"]):
-            out.append(postprocess_bytes(data) if kd.get("pp") else data)
+            out.append(postprocess_bytes(data, kd.get("ppn", "pp")) if kd.get("pp") else data)
         return out
 
     def resolve_foreign(self, name):
@@ -935,20 +959,17 @@ class World:
             self.fc.create_cache(CACHE_NAME, self.cache_arg, cache_size_GB=size_gb, do_cache_eviction_on_startup=evict,
                                  download_in_parallel=parallel, resources=self._resources())
             self.cache = self.fc.get_cache(CACHE_NAME)
-            self.fc.set_directive_function("postprocess", "pp", self._pp, CACHE_NAME)
-            self.fc.set_directive_function("validate", "v", self._validate, CACHE_NAME)
+            self._register_directives(lambda d, n, f: self.fc.set_directive_function(d, n, f, CACHE_NAME))
             if self.knobs.get("second_cache"):
                 # another named cache of the same process, in its own directory
                 self.fc.create_cache(OTHER_NAME, OTHER_DIR, cache_size_GB=self.knobs.get("other_max", 10**9) / 1e9,
                                      resources=self._resources())
-                self.fc.set_directive_function("postprocess", "pp", self._pp, OTHER_NAME)
-                self.fc.set_directive_function("validate", "v", self._validate, OTHER_NAME)
+                self._register_directives(lambda d, n, f: self.fc.set_directive_function(d, n, f, OTHER_NAME))
         else:
             self.cache = self.co.FileCache(self.cache_arg, size_GB=size_gb, do_cache_eviction_on_startup=evict,
                                            resources=self._resources(), parallel=parallel,
                                            allow_for_missing_files=allow_missing)
-            self.cache.set_directive_function("postprocess", "pp", self._pp)
-            self.cache.set_directive_function("validate", "v", self._validate)
+            self._register_directives(self.cache.set_directive_function)
         self.cache.disable_progress_bar = True
 
     def _get(self, uris):
@@ -1454,6 +1475,35 @@ class World:
                     else:
                         cfg.max_size_bytes = new
                     obs.result = ("grow", new)
+        elif kind == "SETDIR":
+            # the caller manages directive functions on the running cache: swaps an implementation (remove + set,
+            # same semantics under the same name, new function object), registers one more that no uri names, or
+            # removes that one again.  None of this may change what any request returns.
+            obs.result = None
+            if self.cache is not None:
+                module = self.knobs.get("api", "object") == "module"
+                rm = (lambda d, n: self.fc.remove_directive_function(d, n, CACHE_NAME)) if module else \
+                    self.cache.remove_directive_function
+                st = (lambda d, n, f: self.fc.set_directive_function(d, n, f, CACHE_NAME)) if module else \
+                    self.cache.set_directive_function
+                d = op["directive"]
+                have = sorted(self.cache.directives[d]) if isinstance(getattr(self.cache, "directives", None), dict) and \
+                    d in self.cache.directives else None
+                what = op["what"]
+                if what == "swap":
+                    names = [n for n in (have if have is not None else ["pp" if d == "postprocess" else "v"]) if n != "extra"]
+                    if names:
+                        n = names[op.get("pick", 0) % len(names)]
+                        rm(d, n)
+                        st(d, n, self._named(d, n))
+                        obs.result = ("swap", d, n)
+                elif what == "extra":
+                    if have is None or "extra" not in have:
+                        st(d, "extra", self._named(d, "extra"))
+                        obs.result = ("extra", d)
+                    else:
+                        rm(d, "extra")
+                        obs.result = ("extra-removed", d)
         elif kind == "RES_UPDATE":
             self.store.update(op["res"], op.get("size"))
             self.sync_remote_files()
